@@ -8,12 +8,14 @@ import (
 
 func TestWorker(t *testing.T) {
 	sim.WorkerMain(t, map[string]sim.Harness{
+		"C01": C01,
 		"C02": C02,
 		"C03": C03,
 		"C04": C04,
 		"C05": C05,
 		"C07": C07,
 	}, map[string]sim.Options{
+		"C01": {PanicIsViolation: true},
 		"C02": {PanicIsViolation: true},
 		"C03": {PanicIsViolation: true},
 		"C04": {PanicIsViolation: true},
